@@ -82,6 +82,7 @@ func runC32(c *Ctx) {
 	}
 	c.Bubble(func() {
 		s := simrt.New(c.T)
+		s.EnableHB()
 		s.KeepTrace = c.Knobs["trace"] != ""
 		lp := cli.VerifNewLoop()
 		var recs []*c32rec
@@ -178,6 +179,9 @@ func runC32(c *Ctx) {
 		})
 		v := s.Run()
 		c.FinishSim(s, v)
+		if v == nil {
+			c.ReportRaces(s)
+		}
 		if v != nil {
 			return
 		}
